@@ -311,6 +311,59 @@ def scan_windows(ctx, n):
                 break
 
 
+def level_cut_instance(rng, fixed=False):
+    """MinFlowDecomp instance = superposition of: two long routes s->p..->v->w->t, shortcuts s->v of the same routes, and a sink z
+    right below the source carrying the sum of the long routes' weights (so that the edges 'one level below the source' computed
+    with a wrong level function can sum to the source flow without being a cut)."""
+    import networkx as nx
+    a1, a2, b1, b2 = (2, 4, 1, 8) if fixed else (rng.choice([1, 2, 3]), rng.choice([4, 5, 6]), rng.choice([1, 7]), rng.choice([8, 9, 11]))
+    depth = 3 if fixed else rng.choice([2, 3])
+    routes = []
+    for tag, a, b in (("", a1, b1), ("2", a2, b2)):
+        mid = [f"m{tag}{j}" for j in range(depth)]
+        routes.append((["s"] + mid + [f"v{tag}", f"w{tag}", "t"], a))
+        routes.append((["s", f"v{tag}", f"w{tag}", "t"], b))
+    routes.append((["s", "z"], a1 + a2))
+    if not fixed and rng.random() < 0.5:
+        routes.append((["s", "w", "t"], rng.choice([1, 2, 3])))          # one more shortcut level
+    flow = {}
+    for P, wgt in routes:
+        for e in zip(P, P[1:]):
+            flow[e] = flow.get(e, 0) + wgt
+    es = list(flow)
+    if not fixed:
+        rng.shuffle(es)
+    G = nx.DiGraph()
+    for e in es:
+        G.add_edge(*e, flow=flow[e])
+    return {"class": "MinFlowDecomp", "G": G, "kwargs": {"flow_attr": "flow", "weight_type": int, "solver_options": {"threads": zoo.THREADS}}}
+
+
+def is_exact_cut_multiset(G, live, part):
+    """is there a set C of edges to be explained whose flow values are exactly the multiset `part` and that EVERY source-to-sink
+    path of G crosses exactly once?  (exhaustive over the edge sets with that multiset of values; graphs are tiny)"""
+    import itertools, collections
+    import gen
+    want = collections.Counter(part)
+    by_val = collections.defaultdict(list)
+    for e in live:
+        if "flow" in G.edges[e]:
+            by_val[G.edges[e]["flow"]].append(e)
+    if any(len(by_val[v]) < c_ for v, c_ in want.items()):
+        return False
+    paths = [list(zip(p_, p_[1:])) for p_ in gen.all_st_paths(G) if len(p_) >= 2]     # an isolated node carries no flow: no route
+    choices = [list(itertools.combinations(by_val[v], c_)) for v, c_ in want.items()]
+    budget = 200000
+    for combo in itertools.product(*choices):
+        budget -= 1
+        if budget < 0:
+            return True                                    # undecided: do not blame
+        C = set(e for grp in combo for e in grp)
+        if all(sum(1 for e in p_ if e in C) == 1 for p_ in paths):
+            return True
+    return False
+
+
 def mgs_premises(ctx, n):
     """Premises of C05_min_gen_set_option_is_sound, checked on the objects the code builds: whenever MinFlowDecomp consults
     MinGenSet for its lower bound, (a) the s-t graph has the shape the theorem assumes (nodes attached to the synthetic source
@@ -326,11 +379,16 @@ def mgs_premises(ctx, n):
     for i in range(n):
         rng = ctx.rng("mgsprem", i)
         info = scan_instance(rng, False) if i % 2 else zoo.make(rng, "MinFlowDecomp", node=False, with_starts=False, exact=True)
+        shortcut = i % 3 == 0
+        if shortcut:
+            # level-cut family (fixed corpus for i == 0): long routes and flow-carrying shortcuts from the source to deep nodes,
+            # plus a sink right below the source whose inflow makes a WRONG level set sum to the source flow
+            info = level_cut_instance(rng, fixed=(i == 0))
         seen = []
 
         def tapped(self, *a, **kw):          # the constructor itself is wrapped: independent of how the module imports the class
             seen.append(dict(zip(names_, a), **kw)); return real_init(self, *a, **kw)
-        pc = rng.random() < 0.3
+        pc = True if shortcut else rng.random() < 0.3
         opts = {"use_min_gen_set_lowerbound": True, "optimize_with_greedy": False, "use_min_gen_set_lowerbound_partition_constraints": pc}
         cls_.__init__ = tapped
         try:
@@ -391,6 +449,10 @@ def mgs_premises(ctx, n):
             for part in c["partition_constraints"]:
                 if sum(part) != c.get("total") or not set(part) <= flows:
                     problems.append(f"partition constraint {part} does not split the total into flow values")
+                elif not is_exact_cut_multiset(G, live, part):
+                    problems.append(f"partition constraint {part} is not the multiset of flow values of any set of edges that every "
+                                    "source-to-sink path crosses exactly once (premise of min_gen_set_partition_constraint_is_sound)")
+            ctx.count("E2_min_gen_set_premises", "partition_constraints_checked", len(c["partition_constraints"]))
         ctx.count("E2_min_gen_set_premises", "premises_checked")
         if problems:
             ctx.report("the MinGenSet instance built for the lower bound does not meet the premises of C05_min_gen_set_option_is_sound: "
